@@ -45,13 +45,21 @@ def mandatory_bins(tier):
     b = ["len_mod16_%d" % i for i in range(16)] + ["len_mod40_%d" % i for i in range(40)]
     b += ["trailing_zeros_%d" % z for z in (0, 1, 2, 15, 16, 17)]
     b += ["zero_components", "zero_comments", "io_stream", "io_path", "mac_on", "mac_off", "default_key", "key_ends_00", "declared_lt_len", "declared_1",
-          "desc_210_bytes", "desc_211_bytes_refused", "tag_order_not_sorted", "crlf_in_path_file", "all_zero_payload", "cross_mode_path_written_stream_read", "rewrite_after_in_place_mutation", "enc_tag_other_value_on_plain_component", "stream_positioned_after_other_content"]
+          "desc_210_bytes", "desc_211_bytes_refused", "tag_order_not_sorted", "crlf_in_path_file", "all_zero_payload", "cross_mode_path_written_stream_read", "rewrite_after_in_place_mutation", "enc_tag_other_value_on_plain_component", "stream_positioned_after_other_content", "comment_with_unicode_line_boundary_character", "same_component_object_listed_twice"]
     return b
 
 
-def check_case(ns, ctx, case, key, scratch, modes=("stream", "path"), macs=(True, False)):
+SPECIAL_CHARS = ["\x0b", "\x0c", "\x1c", "\x1d", "\x1e", "\x85", "\u2028", "\u2029"]
+
+
+def check_case(ns, ctx, case, key, scratch, modes=("stream", "path"), macs=(True, False), special=False, dup=False):
     BF = ns.bf3file
-    rp = {"case": case.to_json(), "key": key.hex()}
+    orig_case = case
+    if dup:
+        # the same component OBJECT at two positions of the list (one image for two slots); the expected file simply has it twice
+        j = len(case.comps) // 2
+        case = G.Case(case.comments, list(case.comps) + [case.comps[j]])
+    rp = {"case": orig_case.to_json(), "key": key.hex(), "dup": dup, "special": special}
     ctx.distinct(case.digest_parts(), key)
     for c in case.comps:
         ln = len(c.blob)
@@ -82,6 +90,8 @@ def check_case(ns, ctx, case, key, scratch, modes=("stream", "path"), macs=(True
         ctx.bin("key_ends_00")
     for mode in modes:
         obj = G.build_real(ns, case, explicit_len=(len(rp["key"]) + len(case.comps)) % 2 == 0)
+        if dup:
+            obj.components[-1] = obj.components[(len(case.comps) - 1) // 2]
         ctx.ev()
         path = None
         # ------------------------------------------------------------------ write
@@ -113,6 +123,8 @@ def check_case(ns, ctx, case, key, scratch, modes=("stream", "path"), macs=(True
             if oversize:
                 ctx.bin("desc_211_bytes_refused")
                 ctx.note("writer_refused_oversize_description_" + type(e).__name__)
+            elif special:
+                ctx.note("writer_refused_comment_with_line_boundary_character")
             else:
                 ctx.violation("writer_raises_on_object_in_domain", {"exc": fmt_exc(e), "mode": mode}, rp)
             if path:
@@ -266,6 +278,18 @@ def run_shard(spec, ctx):
         for i in range(spec["n"]):
             case = G.gen_case(rng, big=spec.get("big", False))
             key = G.gen_key(rng)
+            if i % 6 == 1:
+                # characters inside a comment that are no line ends for file I/O but count as line boundaries for str.splitlines()
+                # (VT, FF, FS, GS, RS, NEL, LS, PS): the writer may refuse them; what it writes must read back unchanged
+                ch = SPECIAL_CHARS[(i // 6) % len(SPECIAL_CHARS)]
+                case.comments = list(case.comments) + [("Creator" + ("" if i % 12 == 1 else ch + "k"), "tool" + ch + "v2" + (":7" if i % 18 == 1 else ""))]
+                ctx.bin("comment_with_unicode_line_boundary_character")
+                check_case(ns, ctx, case, key, scratch, special=True)
+                continue
+            if i % 6 == 4 and case.comps:
+                ctx.bin("same_component_object_listed_twice")
+                check_case(ns, ctx, case, key, scratch, dup=True)
+                continue
             check_case(ns, ctx, case, key, scratch)
             if i == 0:
                 ctx.sample({"case": case.to_json(), "key": key})
@@ -279,7 +303,7 @@ def replay(rec, ctx):
     ns = load()
     scratch = tempfile.mkdtemp(prefix="c01-")
     try:
-        check_case(ns, ctx, G.Case.from_json(rec["case"]), bytes.fromhex(rec["key"]), scratch)
+        check_case(ns, ctx, G.Case.from_json(rec["case"]), bytes.fromhex(rec["key"]), scratch, dup=bool(rec.get("dup")), special=bool(rec.get("special")))
     finally:
         import shutil
 
